@@ -70,6 +70,16 @@ def confirm(prop, src, suffix, letter):
 def run(names, tier):
     res_path = os.environ.get('SEED_RESULTS') or os.path.join(ROOT, 'results.json')
     results = json.load(open(res_path)) if os.path.exists(res_path) else {}
+    # the checks run from a snapshot of /verif, so that editing the sources while a long run is
+    # going cannot break (or change) the checks half-way
+    snap = tempfile.mkdtemp(prefix='verif-snap-', dir='/tmp')
+    sh(f'rsync -a --exclude .git --exclude replays --exclude evidence --exclude seeded --exclude bin /verif/ {snap}/')
+    try:
+        run_in(names, tier, res_path, results, snap)
+    finally:
+        shutil.rmtree(snap, ignore_errors=True)
+
+def run_in(names, tier, res_path, results, snap):
     for name in sorted(os.listdir(ROOT)):
         d = os.path.join(ROOT, name)
         if not os.path.isdir(d) or (names and name not in names and name.split('-')[0] not in names):
@@ -84,11 +94,13 @@ def run(names, tier):
                 results[name] = dict(status='patch-stale', detail=out[-200:]); print(name, 'PATCH-STALE'); continue
             entry = {}
             for chk in checks:
-                rc, out = sh(f'VERIF_REPO={wt} timeout -s QUIT 2400 ./run.sh {chk} {tier}', cwd='/verif')
+                rc, out = sh(f'VERIF_REPO={wt} timeout -s QUIT 2400 ./run.sh {chk} {tier}', cwd=snap)
                 viol = [l for l in out.splitlines() if l.startswith('VIOLATION')]
                 keys = sorted({l.split('key=')[1].split(' ')[0] for l in viol if 'key=' in l})
                 summ = [l for l in out.splitlines() if l.startswith('SUMMARY')]
                 status = 'caught' if viol else 'missed'
+                if not viol and (not summ or 'BROKEN build failed' in out):
+                    status = 'error (the check did not run)'
                 if not viol and md.get('neutralised'):
                     status = 'neutralised (no longer breaks the property, see meta.json)'
                 if not viol and md.get('judgement'):
